@@ -1,0 +1,42 @@
+//go:build verif
+
+package noderesources
+
+import (
+	"k8s.io/apimachinery/pkg/util/sets"
+
+	"volcano.sh/volcano/pkg/agent/apis"
+	"volcano.sh/volcano/pkg/agent/config/api"
+	"volcano.sh/volcano/pkg/agent/events/framework"
+	"volcano.sh/volcano/pkg/agent/oversubscription/policy"
+	"volcano.sh/volcano/pkg/agent/oversubscription/queue"
+	utilnode "volcano.sh/volcano/pkg/agent/utils/node"
+)
+
+// VerifCalculator gives an external test harness synchronous access to the
+// unexported steps of historicalUsageCalculator (what Run does every 10s).
+type VerifCalculator struct{ c *historicalUsageCalculator }
+
+// NewCalculatorForVerif builds the calculator as NewCalculator does, with the
+// policy, sample queue and node getter given by the caller.
+func NewCalculatorForVerif(p policy.Interface, f *framework.EventQueueFactory, q *queue.SqQueue, getNode utilnode.ActiveNode) *VerifCalculator {
+	return &VerifCalculator{c: &historicalUsageCalculator{
+		Interface:         p,
+		eventQueueFactory: f,
+		queue:             q,
+		resourceTypes:     sets.NewString(),
+		getNodeFunc:       getNode,
+	}}
+}
+
+func (v *VerifCalculator) Probe() framework.Probe { return v.c }
+
+// Sample is the first periodic step of Run.
+func (v *VerifCalculator) Sample() { v.c.CalOverSubscriptionResources() }
+
+// PreProcess is the second periodic step of Run.
+func (v *VerifCalculator) PreProcess() { v.c.preProcess() }
+
+func (v *VerifCalculator) ComputeOverSubRes() apis.Resource { return v.c.computeOverSubRes() }
+
+func (v *VerifCalculator) RefreshCfg(cfg *api.ColocationConfig) error { return v.c.RefreshCfg(cfg) }
